@@ -3,6 +3,7 @@ import re
 from sa.facts import AnalysisBroken, strip_targs
 from sa import analysis as an
 from sa import rules as K
+from rules import common as C
 
 UNITS = ['thread/workerpool.cpp', 'witness/workpool.cpp']
 FLOOR = 25
@@ -70,6 +71,28 @@ def do_call(R, prog):
         key = '%s.K10:Awaiter<AutoContext>::%s:same-discriminator' % (P, nm)
         (R.held if ok else R.violated)(P + '.K10', key, f.id, '%s:%d' % (f.file, f.line),
                                         'is_photon ? pctx.%s : sctx.%s' % (nm, nm) if ok else 'resume/suspend do not select the same context by is_photon')
+
+
+def awaiter_paths(R, prog):
+    """K7: Awaiter<PhotonContext>::suspend() returns only through its semaphore wait, and resume() ends with the signal: the
+    semaphore's own hand-shake (the signaller does not touch it after the waiter may return) is what makes it safe for the caller to
+    destroy the on-stack awaiter right after suspend().  A flag-based short-cut lets the caller leave while signal() is still inside."""
+    f = prog.find('photon::Awaiter<photon::PhotonContext>::suspend')
+    G = K.build_f(R, prog, f)
+    w = lambda ev: ev.kind == 'call' and (ev.callee() or '').startswith('photon::semaphore::wait') and (ev.recv_path() or '').endswith('sem')
+    res = an.run(G, [an.SeenTracker([('waited', w)])])
+    K.check_at(R, P + '.K7', G, res, lambda ev: ev.kind == 'exit', require=lambda st, ev: 'S:waited' in st,
+               key_fn=lambda ev: P + '.K7:Awaiter<PhotonContext>::suspend:every-path-waits-on-the-semaphore',
+               describe=lambda ev: 'suspend() has no path that returns without sem.wait()', min_sites=1, what='exit')
+    f = prog.find('photon::Awaiter<photon::PhotonContext>::resume')
+    G = K.build_f(R, prog, f)
+    sg = lambda ev: ev.kind == 'call' and ev.callee() == 'photon::semaphore::signal' and (ev.recv_path() or '').endswith('sem')
+    other = lambda ev: (ev.kind == 'binop' and ev.e['op'].endswith('=') and ev.e['op'] not in ('==', '!=', '<=', '>=') and (ev.path(ev.e['l']) or '').startswith('this->')) or \
+        ((K.atomic_op(ev) or (None, None))[1] in ('store', 'exchange', 'fetch_add', 'fetch_sub', 'operator=') and (K.atomic_op(ev)[0] or '').startswith('this->'))
+    res = an.run(G, [an.SeenTracker([('published', other)])])
+    K.check_at(R, P + '.K8', G, res, sg, require=lambda st, ev: 'S:published' not in st,
+               key_fn=lambda ev: P + '.K8:Awaiter<PhotonContext>::resume:signal-is-the-only-publication',
+               describe=lambda ev: 'resume() publishes completion only through sem.signal() (no member is written before it that the waiter could act on)', min_sites=1, what='sem.signal')
 
 
 def dispatcher(R, prog):
@@ -187,6 +210,8 @@ def pause_policy(R, prog):
 
 
 def run(R, prog, tier):
+    R.guard(C.flexqueue_geometry, R, prog, P)
+    R.guard(awaiter_paths, R, prog)
     R.guard(pause_policy, R, prog)
     R.guard(do_call, R, prog)
     R.guard(dispatcher, R, prog)
